@@ -59,3 +59,39 @@ theorem group_hints (dk n g ag : ℕ) (hg : 0 < g) (hdk : 0 < dk) (hn : n = g * 
   · exact Nat.mul_mod_right g ag
   · exact Nat.mul_div_cancel_left ag hg
   · exact Nat.mul_div_cancel_left (g * ag) hdk
+
+/-- Correct rounding is monotone.  Let `F` be any set of reals (the finite values of a float format) and `rnd` any function
+    that returns, for every real, a member of `F` nearest to it (whatever the tie rule).  Then `rnd` is monotone.  With
+    `rnd (a / s)` = the IEEE-754 quotient (the standard defines it as the correctly rounded real quotient) and `a / s ≤ b / s`
+    for `a ≤ b`, `0 < s`, this is `A-IEEE-MONO` of C01 away from overflow (where the quotient saturates to ±inf, which is
+    monotone too). -/
+theorem nearest_monotone (F : Set ℝ) (rnd : ℝ → ℝ) (hmem : ∀ y, rnd y ∈ F)
+    (hnear : ∀ y, ∀ f ∈ F, |y - rnd y| ≤ |y - f|) : Monotone rnd := by
+  intro y1 y2 h
+  by_contra hc
+  have hlt : rnd y2 < rnd y1 := not_le.mp hc
+  have h1 := hnear y1 (rnd y2) (hmem y2)
+  have h2 := hnear y2 (rnd y1) (hmem y1)
+  have e1 : (rnd y1 + rnd y2) / 2 ≤ y1 := by
+    by_contra hh
+    push_neg at hh
+    rcases abs_cases (y1 - rnd y1) with ⟨ha, _⟩ | ⟨ha, _⟩ <;>
+      rcases abs_cases (y1 - rnd y2) with ⟨hb, _⟩ | ⟨hb, _⟩ <;> linarith
+  have e2 : y2 ≤ (rnd y1 + rnd y2) / 2 := by
+    by_contra hh
+    push_neg at hh
+    rcases abs_cases (y2 - rnd y1) with ⟨ha, _⟩ | ⟨ha, _⟩ <;>
+      rcases abs_cases (y2 - rnd y2) with ⟨hb, _⟩ | ⟨hb, _⟩ <;> linarith
+  have e : y1 = y2 := le_antisymm h (le_trans e2 e1)
+  rw [e] at hlt
+  exact lt_irrefl _ hlt
+
+/-- Division by a positive real is monotone in the dividend (the real-number half of `A-IEEE-MONO`). -/
+theorem div_pos_monotone (a b s : ℝ) (hs : 0 < s) (h : a ≤ b) : a / s ≤ b / s :=
+  div_le_div_of_nonneg_right h (le_of_lt hs)
+
+/-- Both halves together: a correctly rounded quotient by a positive divisor is monotone in the dividend. -/
+theorem rounded_div_monotone (F : Set ℝ) (rnd : ℝ → ℝ) (hmem : ∀ y, rnd y ∈ F)
+    (hnear : ∀ y, ∀ f ∈ F, |y - rnd y| ≤ |y - f|) (a b s : ℝ) (hs : 0 < s) (h : a ≤ b) :
+    rnd (a / s) ≤ rnd (b / s) :=
+  nearest_monotone F rnd hmem hnear (div_pos_monotone a b s hs h)
